@@ -190,7 +190,7 @@ func dumpErr(e *errchain.PlError) map[string]any {
 	for _, p := range e.PosChain {
 		chain = append(chain, []any{hx(p.File), p.Pos, p.Ln, p.Col})
 	}
-	return map[string]any{"chain": chain, "msg": e.Err}
+	return map[string]any{"chain": chain, "msg": e.Err, "msgx": hx(e.Err), "text": hx(e.Error())}
 }
 
 // ---- one run case ----
@@ -206,6 +206,13 @@ type runCase struct {
 	Point   pointSpec
 	SigK    int  // 0 = never fires
 	HasSig  bool // false = nil signal
+	Held    int  `json:",omitempty"` // in a history: 1-based index of an earlier operation whose loaded scripts are run again (0 = load now)
+}
+
+// the scripts an operation loaded, kept by the host for later runs
+type loadedSet struct {
+	oks      map[string]*plruntime.Script
+	loadErrs map[string]any
 }
 
 func sortedNames(m map[string]string) []string {
@@ -224,33 +231,47 @@ func caseHeader(rc runCase) map[string]any {
 		in = append(in, map[string]any{"name": hx(s.Name), "src": hx(s.Src)})
 	}
 	return map[string]any{"k": "run", "scripts": in, "entry": hx(rc.Entry), "point": rc.Point.json(),
-		"sigk": rc.SigK, "hassig": rc.HasSig}
+		"sigk": rc.SigK, "hassig": rc.HasSig, "held": rc.Held}
 }
 
 func runV1Direct(rc runCase) map[string]any {
+	m, _ := runV1With(rc, nil)
+	return m
+}
+
+// runV1With loads the scripts (or takes the set `held`, loaded by an earlier operation of the same
+// history and kept since) and runs the entry script once
+func runV1With(rc runCase, held *loadedSet) (map[string]any, *loadedSet) {
 	srcs := map[string]string{}
 	for _, s := range rc.Scripts {
 		srcs[s.Name] = s.Src
 	}
 	res := caseHeader(rc)
-	call, check := fnTables()
-	oks, errs := engine.ParseScript(srcs, call, check)
+	var oks map[string]*plruntime.Script
 	loadErrs := map[string]any{}
-	for name, e := range errs {
-		var le map[string]any
-		if pe, ok := e.(*errchain.PlError); ok {
-			le = dumpErr(pe)
-		} else {
-			le = map[string]any{"chain": []any{}, "msg": e.Error()}
+	if held != nil {
+		oks, loadErrs = held.oks, held.loadErrs
+	} else {
+		call, check := fnTables()
+		var errs map[string]error
+		oks, errs = engine.ParseScript(srcs, call, check)
+		for name, e := range errs {
+			var le map[string]any
+			if pe, ok := e.(*errchain.PlError); ok {
+				le = dumpErr(pe)
+			} else {
+				le = map[string]any{"chain": []any{}, "msg": e.Error()}
+			}
+			// which stage rejected it: the parser alone on the same text (same pooled parser objects)
+			if _, perr := parser.ParsePipeline(name, srcs[name]); perr != nil {
+				le["stage"] = "parse"
+			} else {
+				le["stage"] = "check-or-link"
+			}
+			loadErrs[hx(name)] = le
 		}
-		// which stage rejected it: the parser alone on the same text (same pooled parser objects)
-		if _, perr := parser.ParsePipeline(name, srcs[name]); perr != nil {
-			le["stage"] = "parse"
-		} else {
-			le["stage"] = "check-or-link"
-		}
-		loadErrs[hx(name)] = le
 	}
+	set := &loadedSet{oks: oks, loadErrs: loadErrs}
 	res["loaderrs"] = loadErrs
 	d := newDumper()
 	asts := map[string]any{}
@@ -267,7 +288,7 @@ func runV1Direct(rc runCase) map[string]any {
 	s, ok := oks[rc.Entry]
 	if !ok {
 		res["obs"] = map[string]any{"outcome": "notloaded"}
-		return res
+		return res, set
 	}
 	pt := rc.Point.build()
 	rec := &probeRec{events: [][]string{}}
@@ -304,5 +325,5 @@ func runV1Direct(rc runCase) map[string]any {
 	obs["stdout"] = hx(takeStdout())
 	res["obs"] = obs
 	input.PutPoint(pt)
-	return res
+	return res, set
 }
